@@ -43,6 +43,10 @@ def c08(ctx):
              "stream type parameters (or, in the non-generic constructor, with Stdin/Stdout themselves): no layer (BufWriter, "
              "LineWriter, ...) is put between the caller's stream and the interpreter, so a write reaches the caller's writer, and "
              "its error the interpreter, at the statement that made it")
+    rep.rule("C08.R6", "canonical text: in the interpreter no float-to-integer conversion (`as i64` / `as u64`, which saturate, truncate and lose "
+             "the sign of zero) is turned into text -- what `say` prints is the f64's own Display (shared with C18.R6)")
+    from .c18 import text_from_cast_rule
+    text_from_cast_rule(ctx, "C08.R6", scope=lambda fn: fn.file.startswith("src/exec/"), min_fns=60)
     rep.rule("C08.R4", "ERRFLOW over src/exec: no Result carrying a runtime / I/O error is discarded, defaulted, dropped or "
              "matched without looking at the error")
     rep.trust("std::io::Write::write_fmt / write_all write everything or return an error; BufRead::read_line reads one line")
